@@ -1080,16 +1080,44 @@ func c13Decimal(c *Ctx) {
 				ast.Inspect(e, func(z ast.Node) bool {
 					switch y := z.(type) {
 					case *ast.CallExpr:
-						if callee := calleeOf(info, y); callee != nil && callee.Pkg() != nil && callee.Pkg().Path() == mp.PkgPath {
-							if sig, ok := callee.Type().(*types.Signature); ok {
-								for i := 0; i < sig.Results().Len(); i++ {
-									if bt, ok := sig.Results().At(i).Type().Underlying().(*types.Basic); ok && bt.Kind() == types.String {
-										// is that result the one used? a single-value use, or result 0 of a (string, error) pair
-										if i == 0 {
-											found = callee.Name()
-										}
+						// a string that was read rather than printed from a number: the result of any call that yields a
+						// string (a reader of the package, a strings.Builder's String()), except the number formatters
+						if tv, ok := info.Types[y]; ok {
+							isStr := false
+							switch t := tv.Type.(type) {
+							case *types.Basic:
+								isStr = t.Info()&types.IsString != 0
+							case *types.Tuple:
+								if t.Len() > 0 {
+									if bt, ok := t.At(0).Type().Underlying().(*types.Basic); ok && bt.Info()&types.IsString != 0 {
+										isStr = true
 									}
 								}
+							default:
+								if bt, ok := tv.Type.Underlying().(*types.Basic); ok && bt.Info()&types.IsString != 0 {
+									isStr = true
+								}
+							}
+							if isStr && !tv.IsType() {
+								name := ""
+								if callee := calleeOf(info, y); callee != nil {
+									name = funcFullName(callee)
+								}
+								switch {
+								case name == "strconv.Itoa" || name == "strconv.FormatInt" || name == "strconv.FormatUint" || name == "strconv.FormatFloat" || strings.HasPrefix(name, "fmt.Sprint"):
+									// text printed from a number carries no more than the number
+								case isTypeConversionCall(info, y):
+								default:
+									if found == "" {
+										found = exprStr(y.Fun)
+									}
+								}
+							}
+						}
+					case *ast.SliceExpr:
+						if tv, ok := info.Types[y]; ok {
+							if bt, ok := tv.Type.Underlying().(*types.Basic); ok && bt.Info()&types.IsString != 0 && found == "" {
+								found = "a substring " + exprStr(y)
 							}
 						}
 					case *ast.Ident:
@@ -1144,4 +1172,9 @@ func fieldColour(fld *types.Var, memo map[ssa.Value]colour, depth int) colour {
 		}
 	}
 	return c
+}
+
+func isTypeConversionCall(info *types.Info, call *ast.CallExpr) bool {
+	tv, ok := info.Types[call.Fun]
+	return ok && tv.IsType()
 }
